@@ -11,8 +11,8 @@ import (
 type lockerAPI interface {
 	Lock1(k int, write bool)
 	Unlock1(k int, write bool)
-	LockN(ks []int, write bool)
-	UnlockN(ks []int, write bool)
+	LockN(slot int, ks []int, write bool)
+	UnlockN(slot int, ks []int, write bool)
 	Counts(k int) (r, w int, present bool)
 	Entries() int
 	Shard(k int) int
@@ -23,6 +23,34 @@ type lockerAPI interface {
 type tAd[T comparable] struct {
 	l  keylock.TLocker[T]
 	kv []T
+	// reuse: the key list of a multi-key call is passed in a per-caller buffer that is REUSED for that caller's
+	// successive calls and overwritten in place (same backing array, other contents), and it is scrambled as soon as
+	// Locks/RLocks has returned (the caller owns the slice again); Unlocks/RUnlocks get a fresh equal slice.
+	// A locker that keeps anything derived from the slice's identity or reads it after returning shows up.
+	reuse bool
+	bufs  [][]T
+}
+
+func (a *tAd[T]) list(slot int, ks []int) []T {
+	if !a.reuse || len(ks) == 0 {
+		return a.keys(ks)
+	}
+	if a.bufs[slot] == nil {
+		a.bufs[slot] = make([]T, 64)
+	}
+	b := a.bufs[slot][:len(ks)]
+	for i, k := range ks {
+		b[i] = a.kv[k]
+	}
+	return b
+}
+func (a *tAd[T]) scramble(b []T, ks []int) {
+	if !a.reuse {
+		return
+	}
+	for i, k := range ks {
+		b[i] = a.kv[(k+1+i)%len(a.kv)]
+	}
 }
 
 func (a *tAd[T]) keys(ks []int) []T {
@@ -46,14 +74,16 @@ func (a *tAd[T]) Unlock1(k int, write bool) {
 		a.l.RUnlock(a.kv[k])
 	}
 }
-func (a *tAd[T]) LockN(ks []int, write bool) {
+func (a *tAd[T]) LockN(slot int, ks []int, write bool) {
+	b := a.list(slot, ks)
 	if write {
-		a.l.Locks(a.keys(ks))
+		a.l.Locks(b)
 	} else {
-		a.l.RLocks(a.keys(ks))
+		a.l.RLocks(b)
 	}
+	a.scramble(b, ks)
 }
-func (a *tAd[T]) UnlockN(ks []int, write bool) {
+func (a *tAd[T]) UnlockN(slot int, ks []int, write bool) {
 	if write {
 		a.l.Unlocks(a.keys(ks))
 	} else {
@@ -85,20 +115,21 @@ func (a *iAd) Unlock1(k int, write bool) {
 		a.l.RUnlock(a.kv[k])
 	}
 }
-func (a *iAd) LockN(ks []int, write bool)    { panic("no multi-key API") }
-func (a *iAd) UnlockN(ks []int, write bool)  { panic("no multi-key API") }
-func (a *iAd) Counts(k int) (int, int, bool) { return keylock.VerifKeyCountsI(a.l, a.kv[k]) }
-func (a *iAd) Entries() int                  { return keylock.VerifEntriesI(a.l) }
-func (a *iAd) Shard(k int) int               { return 0 } // irrelevant: single-key calls only
-func (a *iAd) HasMulti() bool                { return false }
+func (a *iAd) LockN(slot int, ks []int, write bool)   { panic("no multi-key API") }
+func (a *iAd) UnlockN(slot int, ks []int, write bool) { panic("no multi-key API") }
+func (a *iAd) Counts(k int) (int, int, bool)          { return keylock.VerifKeyCountsI(a.l, a.kv[k]) }
+func (a *iAd) Entries() int                           { return keylock.VerifEntriesI(a.l) }
+func (a *iAd) Shard(k int) int                        { return 0 } // irrelevant: single-key calls only
+func (a *iAd) HasMulti() bool                         { return false }
 
 // ---- the configurations ----
 type lockerCfg struct {
-	Kind   string `json:"kind"`   // KeyLocker | KeyLockerGrp | TKeyLocker | TKeyLockerGrp
-	Route  string `json:"route"`  // "" | mod | xxhash
-	KeyTy  string `json:"keyty"`  // int | string | mixed
-	Shards int    `json:"shards"` // 0 for the single lockers
-	Seeds  []int  `json:"keys"`   // one number per key index from which the key value is derived
+	Kind   string `json:"kind"`            // KeyLocker | KeyLockerGrp | TKeyLocker | TKeyLockerGrp
+	Route  string `json:"route"`           // "" | mod | xxhash
+	KeyTy  string `json:"keyty"`           // int | string | mixed | boundary
+	Reuse  bool   `json:"reuse,omitempty"` // multi-key lists in reused, overwritten, scrambled buffers (generic lockers)
+	Shards int    `json:"shards"`          // 0 for the single lockers
+	Seeds  []int  `json:"keys"`            // one number per key index from which the key value is derived
 }
 
 func (c lockerCfg) class() string {
@@ -123,6 +154,15 @@ func mixedKey(seed int) interface{} {
 	return int64(seed)
 }
 
+// boundary values of an interface{} key: all legal, pairwise distinct map keys (the sharded interface-keyed lockers
+// cannot hash nil, typed nil pointers or struct{}{}: remap.ToBytes panics on them before any state is touched, so
+// these values are used with the single KeyLocker only)
+var nilIntPtr *int
+var nilStrPtr *string
+var boundaryPool = []interface{}{nil, nilIntPtr, 0, "", struct{}{}, int64(0), false, nilStrPtr, uint8(0), [0]int{}, 0.0}
+
+func boundaryKey(seed int) interface{} { return boundaryPool[seed%len(boundaryPool)] }
+
 func (c lockerCfg) keyDesc() []string {
 	out := make([]string, len(c.Seeds))
 	for i, s := range c.Seeds {
@@ -131,6 +171,8 @@ func (c lockerCfg) keyDesc() []string {
 			out[i] = fmt.Sprintf("int(%d)", intKey(s))
 		case "string":
 			out[i] = fmt.Sprintf("%q", strKey(s))
+		case "boundary":
+			out[i] = fmt.Sprintf("%T(%#v)", boundaryKey(s), boundaryKey(s))
 		default:
 			out[i] = fmt.Sprintf("%T(%v)", mixedKey(s), mixedKey(s))
 		}
@@ -149,6 +191,8 @@ func build(c lockerCfg) lockerAPI {
 				kv[i] = intKey(s)
 			case "string":
 				kv[i] = strKey(s)
+			case "boundary":
+				kv[i] = boundaryKey(s)
 			default:
 				kv[i] = mixedKey(s)
 			}
@@ -169,13 +213,13 @@ func build(c lockerCfg) lockerAPI {
 			for i, s := range c.Seeds {
 				kv[i] = strKey(s)
 			}
-			return &tAd[string]{newT[string](c, opt), kv}
+			return &tAd[string]{l: newT[string](c, opt), kv: kv, reuse: c.Reuse, bufs: make([][]string, 32)}
 		}
 		kv := make([]int, len(c.Seeds))
 		for i, s := range c.Seeds {
 			kv[i] = intKey(s)
 		}
-		return &tAd[int]{newT[int](c, opt), kv}
+		return &tAd[int]{l: newT[int](c, opt), kv: kv, reuse: c.Reuse, bufs: make([][]int, 32)}
 	}
 	panic("unknown locker kind " + c.Kind)
 }
